@@ -99,6 +99,8 @@ def cfg_ir(cfg):
         'dsts': dsts,
         'prefix': {'ident': cg.identifier_prefix, 'file': cg.file_name_prefix},
         'default': cg.default_data_stream_type.name if cg.default_data_stream_type is not None else None,
+        'hdropts': {'prefix': cg.header_options.identifier_prefix_definition,
+                    'dst': cg.header_options.default_data_stream_type_name_definition},
     }
 
 
